@@ -116,13 +116,19 @@ func VH_C03_layout() {
 	// event
 	var e *Event
 	var lvl Level
-	switch zzverif.Choice(3) {
+	switch zzverif.Choice(6) {
 	case 0:
 		e, lvl = l.Info(), InfoLevel
 	case 1:
 		e, lvl = l.Log(), NoLevel
 	case 2:
 		e, lvl = l.WithLevel(ErrorLevel), ErrorLevel
+	case 3:
+		e, lvl = l.Err(nil), InfoLevel
+	case 4:
+		e, lvl = l.Warn(), WarnLevel
+	case 5:
+		e, lvl = l.WithLevel(NoLevel), NoLevel
 	}
 	if lvl != NoLevel && levelName != "" {
 		want = append(want, levelName)
